@@ -29,6 +29,7 @@ import (
 	"math/rand"
 	"path/filepath"
 	"sort"
+	"sync/atomic"
 	"time"
 
 	logger "github.com/multiversx/mx-chain-logger-go"
@@ -57,6 +58,8 @@ var errInjected = errors.New("injected persister failure")
 
 // failingPersister consumes one oracle bit per Put/Get/Has/Remove/Close/Destroy call, in call order; a true
 // bit makes the call fail without reaching the wrapped persister. An exhausted oracle never fails.
+var rangeReentryBroken atomic.Bool
+
 type failingPersister struct {
 	types.Persister
 	bits      []bool
@@ -713,7 +716,7 @@ func (comp) Run(h *core.History, scratch string) *core.Result {
 			}
 			// a handler that calls back into the unit for every pair it is shown (cross-checking it with Get, as a pruning or
 			// re-indexing pass does): the iteration and the inner calls must both come back, with the pair's own value
-			{
+			if !rangeReentryBroken.Load() {
 				e.stub.arm(nil)
 				finished := make(chan string, 1)
 				go func() {
@@ -734,6 +737,7 @@ func (comp) Run(h *core.History, scratch string) *core.Result {
 						res.Failf(prop, i, "%s", bad)
 					}
 				case <-time.After(4 * time.Second):
+					rangeReentryBroken.Store(true) // not tried again in this run of the binary: every further history would wait for the watchdog
 					res.Failf(prop, i, "RangeKeys with a handler that calls Get on the same unit did not return within 4 s (the handler runs while the unit is locked)")
 					res.AddObs(obs...)
 					return res
